@@ -38,4 +38,36 @@ def GAction.relabel (σ : IP → IP) (τ : Net → Net) : GAction → GAction
 private network keeps its distance to it -/
 def shiftNet (oldBase newBase : Nat) (n : Net) : Net := { addr := newBase + (n.addr - oldBase), mask := n.mask }
 
+/-- number of addresses of a network with this prefix length -/
+def blockSize (mask : Nat) : Nat := 2 ^ (32 - mask)
+
+/-- `netaddr.IPNetwork(f"{a}/{mask}").network`: the address with its host bits cleared -/
+def alignDown (a mask : Nat) : Nat := a / blockSize mask * blockSize mask
+
+/-- the shortest prefix (= the largest network) among `first :: rest` -/
+def widestMask (m0 : Nat) (nets : List Net) : Nat := nets.foldl (fun m n => min m n.mask) m0
+
+/-- `_create_new_network_mapping`, private networks (sorted ascending, `first` the lowest), for the value `d` drawn by
+`fake.ipv4_private()`: the block of the widest prefix around `d` is the new home of the block of the same size around
+`first`; every network keeps its distance to `first`. -/
+def relabelBase (d : Nat) (first : Net) (rest : List Net) : Nat :=
+  let widest := widestMask first.mask rest
+  alignDown d widest + (first.addr - alignDown first.addr widest)
+
+def relabelPrivate (d : Nat) : List Net → List Net
+  | [] => []
+  | first :: rest => (first :: rest).map (shiftNet first.addr (relabelBase d first rest))
+
+/-- the generator of the pinned tree before fix 9086a03: the new base was aligned to the prefix of the lowest network only -/
+def relabelPrivateOld (d : Nat) : List Net → List Net
+  | [] => []
+  | first :: rest => (first :: rest).map (shiftNet first.addr (alignDown d first.mask))
+
+/-- one network's part of the address draw: its hosts paired with the first entries of the shuffled address list of the new
+network (`mapping_ips[ip] = ip_list[i]`) -/
+def assignHosts (hosts addrs : List IP) : AMap IP IP := hosts.zip addrs
+
+/-- the whole address map: the parts of all networks, in the order of the network table -/
+def drawIPs (parts : List (List IP × List IP)) : AMap IP IP := parts.flatMap (fun p => assignHosts p.1 p.2)
+
 end NSG
